@@ -6883,7 +6883,12 @@ write_function_instance(ostream &out, FunctionRemap *remap,
         // behavior of returning self.
         return_flags = (return_flags & ~RF_self) | RF_pyobject;
       } else {
-        // We won't be using the return value, anyway.
+        // We won't be using the return value, anyway; but the call itself
+        // still has to be made if call_function() left it to us (it only
+        // writes the statement for void and assignment-style functions).
+        if (!return_expr.empty()) {
+          indent(out, indent_level) << return_expr << ";\n";
+        }
         return_expr.clear();
       }
     }
